@@ -22,6 +22,20 @@ FAIR = 14
 GATE_ONLY = "todo,lock/trigger"
 
 
+# part B histories executed in every run: a remote message waits for its retry while the local channel is saturated by an open pass
+# (concurrencylocal=1, two local recipients) - the sleep must still be bounded by the remote retry time; and the mirror image
+FIXED_B = [
+    {"controls": {"me": "me.example\n", "locals": "loc.example\n", "concurrencylocal": "1\n"}, "limits": [120, 120],
+     "messages": [{"sender": "s@rem.example", "rcpts": ["r@rem.example"], "body": "x\n"},
+                  {"sender": "s@rem.example", "rcpts": ["joe@loc.example", "ann@loc.example"], "body": "y\n"}],
+     "scripts": {"0:0": "ZK"}, "bscript": "", "texts": ["ok"], "tape": [0, 0, 0, 0, 0, 0], "actions": ["answer", "inject", "advance"], "mode": {"kind": "none"}},
+    {"controls": {"me": "me.example\n", "locals": "loc.example\n", "concurrencyremote": "1\n"}, "limits": [120, 120],
+     "messages": [{"sender": "s@rem.example", "rcpts": ["joe@loc.example"], "body": "x\n"},
+                  {"sender": "s@rem.example", "rcpts": ["r@rem.example", "q@rem.example"], "body": "y\n"}],
+     "scripts": {"0:0": "ZK"}, "bscript": "", "texts": ["ok"], "tape": [0, 0, 0, 0, 0, 0], "actions": ["answer", "inject", "advance"], "mode": {"kind": "none"}},
+]
+
+
 class GWorld:
     """one sandbox home reused for many executions"""
 
@@ -322,8 +336,9 @@ def run(ctx):
     if ctx.only is None or "a" in ctx.only:
         part_a(ctx)
     if ctx.only is None or "b" in ctx.only:
-        q.search(ctx, "C15", TAGS, 40, 600)
+        q.search(ctx, "C15", TAGS, 40, 600, fixed=FIXED_B)
         q.search(ctx, "C03", TAGS, 30, 400)
+        q.search(ctx, "C04", TAGS, 20, 300)        # varied concurrency settings: saturated channels with open passes
 
 
 def replay(ctx, path):
